@@ -192,3 +192,44 @@ func VerifC01_NoTakeoverWithoutOverride() {
 		verif.Assert("failed_acquire_mutates_nothing", op.name != "Remove" && op.name != "RemoveAll" && op.name != "Rename")
 	}
 }
+
+// VerifC01_FailedBlockingAcquireTouchesNothing: A holds but its heartbeat
+// writer is slow (its writes do not reach the backend yet). B's Lock /
+// LockWithTimeout gives up (timeout or cancellation); a failed acquire must not
+// remove or alter the lock, and C must still find it locked.
+func VerifC01_FailedBlockingAcquireTouchesNothing() {
+	lfs, cs := vLockSetup(verif.Bool("override"))
+	A, B, C := cs[0], cs[1], cs[2]
+	ctx := context.Background()
+	lockDir := A.lock.lockPath()
+	heartbeatReaches := verif.Bool("heartbeatReachesBackend")
+	lfs.before = func(op *vOp) error {
+		if !heartbeatReaches && op.mutating && len(op.path) > len(lockDir) && op.path[:len(lockDir)] == lockDir {
+			return commonerrors.ErrUnavailable // the heartbeat file cannot be written (yet)
+		}
+		return nil
+	}
+	verif.Assert("setup_acquire", A.tryLock(ctx) == nil)
+	lfs.reset()
+	var err error
+	if verif.Bool("withTimeout") {
+		err = B.lock.LockWithTimeout(ctx, 35*time.Millisecond)
+	} else {
+		cctx, cancel := context.WithTimeout(ctx, 35*time.Millisecond)
+		err = B.lock.Lock(cctx)
+		cancel()
+	}
+	if err == nil {
+		B.holds = true
+	}
+	verif.Assert("blocking_acquire_fails_while_held", err != nil)
+	for _, op := range lfs.mutations() {
+		if op.path == lockDir {
+			verif.Assert("failed_acquire_mutates_nothing", op.name != "Remove" && op.name != "RemoveAll" && op.name != "Rename")
+		}
+	}
+	_, _, statErr := lfs.LstatIfPossible(lockDir)
+	verif.Assert("held_lock_survives_a_failed_acquire", statErr == nil)
+	errC := C.tryLock(ctx)
+	verif.Assert("at_most_one_holder", vHolders(cs) <= 1 && errC != nil)
+}
